@@ -2,6 +2,8 @@
 C03 — the document sent to the server is the user's operation plus only __typename.
 -/
 import Genq.Model.Doc
+import Genq.Model.ConvSkel
+import Genq.Extracted.Conv
 namespace Genq.Doc
 
 section Lemmas
@@ -333,3 +335,9 @@ theorem C03_closure_complete (frags : List Frag) (op : Op) (n : Name)
     obtain ⟨j, hj, hget⟩ := List.getElem_of_mem hin
     exact hclosed j _ hj (by rw [List.getElem?_eq_getElem hj, hget]) _ hm
 
+namespace Genq
+
+/-- **C03_document_tie** — usedFragments, preprocessQueryDocument, addOperation, as in /repo now (regenerated on every run), equal to the copy the model was written from -/
+theorem C03_document_tie : Extracted.documentSkeleton = ConvSkel.documentSkeleton := rfl
+
+end Genq
